@@ -2,7 +2,7 @@
    Only statements; proofs live in Proof/P_IOTree.v.
    run / getvalue / allmarkers / is_empty / copyto : heap model of Cython/StringIOTree.py (M_IOTree part 1);
    spec_run / sregion / frags / written            : the list-of-holes reference (M_IOTree part 2);
-   wf_hist true : handles exist, an inserted buffer is a root and not the tree of its target, markers only
+   wf_hist : handles exist, an inserted buffer is a root and not the tree of its target, markers only
    together with text, reset only on buffers without insertion points inside. *)
 From Coq Require Import List NArith Arith Bool Permutation.
 From CyVerif Require Import Model.M_IOTree Proof.P_IOTree.
@@ -12,7 +12,7 @@ Import ListNotations.
    (all recursions terminate within fuel = number of objects + 1), and for EVERY buffer b - root or insertion
    point - getvalue/copyto/allmarkers/empty are those of the fragments inside hole b of the reference, in the
    reference's order; only written fragments occur. *)
-Theorem C49_refines_holes : forall ops, wf_hist true init_spec ops = true ->
+Theorem C49_refines_holes : forall ops, wf_hist init_spec ops = true ->
   exists st, run ops = Some st /\
     forall b, b < sp_n (spec_run ops) ->
       exists body, sregion (spec_run ops) b = Some body /\
@@ -25,14 +25,14 @@ Proof. exact refines_holes. Qed.
 Print Assumptions C49_refines_holes.
 
 (* each written fragment exactly once: without reset the reference holds a permutation of the writes *)
-Theorem C49_exactly_once : forall ops, wf_hist true init_spec ops = true -> has_reset ops = false ->
+Theorem C49_exactly_once : forall ops, wf_hist init_spec ops = true -> has_reset ops = false ->
   Permutation (frags (concat (sp_docs (spec_run ops)))) (written ops).
 Proof. exact exactly_once. Qed.
 Print Assumptions C49_exactly_once.
 
 (* the assembled output: once everything has been inserted into one root r, getvalue r / allmarkers r are
    the concatenations over the reference's fragment list, which is a permutation of all writes *)
-Theorem C49_final_output : forall ops d r, wf_hist true init_spec ops = true -> has_reset ops = false ->
+Theorem C49_final_output : forall ops d r, wf_hist init_spec ops = true -> has_reset ops = false ->
   sp_docs (spec_run ops) = [d] -> is_root r d = true ->
   exists st fs, run ops = Some st /\ getvalue st r = Some (texts_of fs) /\ allmarkers st r = Some (marks_of fs) /\
                 fs = frags d /\ Permutation fs (written ops).
@@ -42,7 +42,7 @@ Print Assumptions C49_final_output.
 (* markers stay aligned: when every write carries one marker per newline (what CCodeWriter._write_lines
    does), text and markers of every buffer are concatenations over the same fragment list, each fragment
    with as many markers as newlines; so marker k is the marker of the write that produced line k *)
-Theorem C49_markers_aligned : forall ops, wf_hist true init_spec ops = true ->
+Theorem C49_markers_aligned : forall ops, wf_hist init_spec ops = true ->
   forallb (fun o => match o with OWrite _ s ms => Nat.eqb (length ms) (count_nl s) | _ => true end) ops = true ->
   exists st, run ops = Some st /\
     forall b, b < sp_n (spec_run ops) ->
@@ -55,7 +55,7 @@ Print Assumptions C49_markers_aligned.
 (* boundary (not reachable through CCodeWriter, excluded by wf_hist): markers appended without text are
    not carried along by insertion_point *)
 Theorem C49_markers_without_text_boundary :
-  wf_hist true init_spec boundary_ops = false /\
+  wf_hist init_spec boundary_ops = false /\
   option_map (fun st => allmarkers st 0) (run boundary_ops) = Some (Some [9%N; 7%N]).
 Proof. exact markers_without_text_boundary. Qed.
 Print Assumptions C49_markers_without_text_boundary.
@@ -63,7 +63,7 @@ Print Assumptions C49_markers_without_text_boundary.
 (* non-vacuity: a history with insertion point, subtree insertion, commit is well-formed, obeys the marker
    discipline, and assembles "a\n b\n d c\n" in insertion-point order (written chronologically a c d b) *)
 Example C49_nonvacuous :
-  wf_hist true init_spec sample_ops = true /\ has_reset sample_ops = false /\
+  wf_hist init_spec sample_ops = true /\ has_reset sample_ops = false /\
   option_map (fun st => (getvalue st 0, allmarkers st 0)) (run sample_ops)
     = Some (Some [97; 10; 100; 98; 10; 99; 10]%N, Some [1; 2; 3]%N) /\
   map fst (written sample_ops) = [[97; 10]; [99; 10]; [100]; [98; 10]]%N.
